@@ -3123,6 +3123,13 @@ func (db *DB) importToLTX(ctx context.Context, r io.Reader) (ltx.Pos, error) {
 		return ltx.Pos{}, fmt.Errorf("close ltx file: %s", err)
 	}
 
+	// The image can take a long time to arrive. Ensure the node is still the
+	// primary before the transaction is published.
+	if !db.store.IsPrimary() {
+		_ = db.os.Remove("IMPORTTOLTX", tmpPath)
+		return ltx.Pos{}, ErrReadOnlyReplica
+	}
+
 	// Atomically rename the file
 	if err := db.os.Rename("IMPORTTOLTX", tmpPath, ltxPath); err != nil {
 		return ltx.Pos{}, fmt.Errorf("rename ltx file: %w", err)
